@@ -168,6 +168,10 @@ def _mk_roundtrip(cid, form):
                     code = elt.copy()
                 elif form == 'own_ast':
                     code = elt.copy().a
+                elif form == 'own_pure_ast':
+                    from harness.c19 import pure
+                    with pc.untraced():
+                        code = pure(elt.a)       # the node's OWN AST without positions or links (values exactly as they are in the tree)
                 else:
                     code = elt.own_src()
                 try:
@@ -177,6 +181,8 @@ def _mk_roundtrip(cid, form):
                     fail(sig + '.cannot_replace_node_by_itself', (type(elt.a).__name__, type(ex).__name__, str(ex)[:200]))
             with pc.untraced():
                 t = pc.o_parse(x.root, sig)
+                if form == 'own_pure_ast':
+                    check(ast.dump(t) == struct0, sig + '.structure_changed_exactly', (pc.R(x.root.src),))      # nothing was copied with re-indentation here: values must come back exactly
                 check(_undoc_tree(ast.dump(t)) == _undoc_tree(struct0), sig + '.structure_changed', (pc.R(x.root.src),))
                 try:
                     x.cont = c.locate(x.root)
@@ -384,12 +390,12 @@ CELLS.append(tletter.letter_cell('T1', 'put_line_comment_block', 'if c:  # ¡\n 
                                  pre=lambda xs: not chr(xs[1]).isspace() and not chr(xs[2]).isspace() and not chr(xs[3]).isspace()))
 _Q = {'list4c', 'ifbody3', 'dict3', 'tuple3', 'uni_list', 'handlers', 'strstmts'}
 for _c in pc.CARRIERS:
-    for _form in ('cut_put', 'own_copy', 'own_ast', 'own_src'):
+    for _form in ('cut_put', 'own_copy', 'own_ast', 'own_src', 'own_pure_ast'):
         if _form != 'cut_put' and (not _c.elem_ops or not _c.old):
             continue      # own_* forms need an element (an empty carrier has none: the cell would be vacuous)
         CELLS.append(Cell(f'P1.{_c.id}.{_form}', _mk_roundtrip(_c.id, _form), 'P', pc.FN_EDIT + ['fst.fst.FST.own_src', 'fst.fst.FST.copy', 'fst.code.code_as_expr'],
                           f'carrier {_c.id}; round trip {_form} with symbolic ints over Z, repeated 1-2 times; whole-tree structure (CPython parse) must equal the original',
-                          tier='quick' if _c.id in _Q and _form in ('cut_put', 'own_ast') else 'thorough', budget=600, per_path=60, reset=pc.reset_globals))
+                          tier='quick' if (_c.id in _Q and _form in ('cut_put', 'own_ast')) or (_c.id in ('strstmts', 'defdoc', 'list4c') and _form == 'own_pure_ast') else 'thorough', budget=600, per_path=60, reset=pc.reset_globals))
 CELLS.append(Cell('P2.docstr', p2_docstr, 'P', ['fst.fst.FST.put_docstr', 'fst.fst.FST.get_docstr', 'fst.astutil.repr_str_multiline', 'fst.fst_core._reparse_docstr_Constants'],
                   f'{len(TEXTS)} docstring texts (quotes, backslashes, control and non-ASCII characters, indentation) x Module/def/class/method targets x reput flag (finite choice)',
                   budget=900, per_path=60, reset=pc.reset_globals))
